@@ -37,7 +37,7 @@ def work(job):
     chunk = job
     part = core.Part()
     dec_jobs = []
-    for (t1, t2, text1, text2, vals1, vals2, nsteps) in chunk:
+    for (t1, t2, text1, text2, vals1, vals2, nsteps, tB, valsB) in chunk:
         for codec in CODECS:
             s1 = impl.compile_text(text1, codec)
             s2 = impl.compile_text(text2, codec)
@@ -83,6 +83,26 @@ def work(job):
                     part.violation('%s: a V1 encoding does not decode under V2 to the same value' % codec,
                                    {'codec': codec, 'v1': text1, 'v2': text2, 'value_v1': repr(v1), 'encoded': r[1].hex() if codec not in ('jer', 'xer') else r[1].decode('utf-8', 'replace'),
                                     'got': repr(d[1:])[:1500], 'steps': nsteps})
+            # bystander: B ::= SEQUENCE { .., COMPONENTS OF A, .. } is the same type in both versions (COMPONENTS OF takes the
+            # ROOT components of A only, X.680 25.5), so both versions must treat every B value identically
+            for vB in (valsB if tB is not None else []):
+                rb1 = impl.encode(s1, 'B', vB)
+                rb2 = impl.encode(s2, 'B', vB)
+                part.case((text1, text2, repr(vB), codec, 'bystander'))
+                part.count('%s.bystander.%s' % (codec, rb1[0] if rb1[0] == 'ok' else rb1[1].split(':')[0]))
+                if rb1[0] != 'ok' and rb2[0] != 'ok':
+                    continue                                      # C01's business
+                if rb1[0] == 'ok':
+                    own = impl.decode(s1, 'B', rb1[1])
+                    if own[0] != 'ok' or not py_equal(tB, own[1], vB):
+                        continue                                  # does not round-trip within one version: C01's business
+                # (the octets may differ: a nested extensible component knows more additions in V2; the meaning may not)
+                dd = impl.decode(s1, 'B', rb2[1]) if rb2[0] == 'ok' else None
+                d2 = impl.decode(s2, 'B', rb1[1]) if rb1[0] == 'ok' else None
+                if rb1[0] != rb2[0] or dd is None or dd[0] != 'ok' or not py_equal(tB, dd[1], vB) or d2 is None or d2[0] != 'ok' or not py_equal(tB, d2[1], vB):
+                    part.violation('%s: a type built with COMPONENTS OF the extended type is unchanged between V1 and V2, but the two versions disagree on it' % codec,
+                                   {'codec': codec, 'v1': text1, 'v2': text2, 'value_B': repr(vB), 'v1_encoding': repr(rb1[1])[:300], 'v2_encoding': repr(rb2[1])[:300],
+                                    'v2_bytes_under_v1': repr(dd)[:300], 'v1_bytes_under_v2': repr(d2)[:300]})
     if dec_jobs:
         model = core.Model()
         ans = model.batch(['dec\t%s\t%s\t%s' % (codec, ty_sx(t1), data.hex() or '-') for t1, text1, codec, data, d in dec_jobs])
@@ -118,7 +138,20 @@ def run(ctx):
             continue
         vals2 = [g.value(t2) for _ in range(3)]
         vals1 = [g.value(t1) for _ in range(2)]
-        cases.append((t1, t2, module_text([('A', t1)]), module_text([('A', t2)]), vals1, vals2, n))
+        text1, text2 = module_text([('A', t1)]), module_text([('A', t2)])
+        tB, valsB = None, []
+        if t1['k'] == 'seq' and t1['ext'] is not None and not with_groups and rng.random() < 0.7:
+            import copy
+            pre = {'name': 'zpre', 't': {'k': 'bool'}, 'opt': False, 'default': None}
+            post = {'name': 'zpost', 't': {'k': 'int', 'lo': 0, 'hi': 7, 'ext': False, 'con': True}, 'opt': rng.random() < 0.5, 'default': None}
+            b_ext = rng.random() < 0.5
+            tB = {'k': 'seq', 'root': [pre] + copy.deepcopy(t1['root']) + [post], 'ext': [] if b_ext else None}
+            btxt = 'B ::= SEQUENCE {\n  zpre BOOLEAN,\n  COMPONENTS OF A,\n  zpost INTEGER (0..7)%s%s\n}\n' % (' OPTIONAL' if post['opt'] else '', ',\n  ...' if b_ext else '')
+            text1 = text1[:text1.rindex('END')] + btxt + 'END\n'
+            text2 = text2[:text2.rindex('END')] + btxt + 'END\n'
+            valsB = [g.value(tB) for _ in range(2)]
+            ctx.count('bystander_components_of')
+        cases.append((t1, t2, text1, text2, vals1, vals2, n, tB, valsB))
     ctx.count('generated_pairs', len(cases))
     n = 28
     parts = core.parallel_map(work, [cases[k::n] for k in range(n)])
